@@ -143,11 +143,14 @@ def singleCheck (cs ts : Option (List Int)) : Except Refusal Unit :=
     | _ => .ok ()
   | _ => .error .oneTarget
 
-/-- `self._check_fixed_control_value()`: a given control_value must be "all controls 1" -/
+/-- `self._check_fixed_control_value()` (proposed fix C09-3): a given control_value needs listed controls and must be
+"all controls 1" -/
 def fixedCheck (cs : Option (List Int)) (cv : Option Int) : Except Refusal Unit :=
   match cv with
   | Option.none => .ok ()
-  | some v => if v = ((2 ^ (cs.getD []).length : Nat) : Int) - 1 then .ok () else .error .cvRefused
+  | some v =>
+    if (cs.getD []).isEmpty then .error .cvRefused
+    else if v = ((2 ^ (cs.getD []).length : Nat) : Int) - 1 then .ok () else .error .cvRefused
 
 /-- the guards of the arity class in the MRO -/
 def arityGuard (e : ClassInfo) (cs ts : Option (List Int)) : Except Refusal Unit :=
